@@ -13,7 +13,7 @@ from vlib.cli import run_cli
 
 ID = 'C18'
 LEVEL = 'exploration'
-RULE = ('Generated histories (model-based, 5..25 steps) over a fresh copy of a synthetic database directory. Steps: CLI query (files / list '
+RULE = ('Generated histories (model-based, 5..25 steps) over a fresh copy of a synthetic database directory whose genome file is put into a drawn valid SQLite configuration (default rollback journal, WAL, PERSIST, other page size, user_version). Steps: CLI query (files / list '
         '/ -s; csv / json / archive; --strict), dist --use-db, dist with mismatching parameters (fails), signatures info -d (plain / -j / '
         '-i / -jp), signatures create --db-params, tree, commands with bad arguments or missing files; library: ReferenceDatabase.load_from_dir '
         '+ query() (optionally left open across steps), load_genomeset / file_sessionmaker default session followed by an ORM edit (change '
@@ -50,6 +50,23 @@ def run_case(case, ctx):
 	shutil.copytree(W.dir, dbdir)
 	gdb = os.path.join(dbdir, 'world.gdb')
 	gs = os.path.join(dbdir, 'world.gs')
+	# database configuration variants: any valid SQLite journal mode / page layout is a legitimate genome file
+	mode = case.get('gdb_mode', 'default')
+	if mode != 'default':
+		import sqlite3
+		con = sqlite3.connect(gdb)
+		if mode == 'wal':
+			con.execute('PRAGMA journal_mode=WAL')
+		elif mode == 'persist':
+			con.execute('PRAGMA journal_mode=PERSIST')
+		elif mode == 'vacuum_pagesize':
+			con.execute('PRAGMA page_size=1024')
+			con.execute('VACUUM')
+		elif mode == 'user_version':
+			con.execute('PRAGMA user_version=7')
+			con.execute('PRAGMA application_id=42')
+		con.commit()
+		con.close()
 	base = (digest(gdb), digest(gs))
 	kept = []   # open handles kept across steps
 	nq = len(W.query_sigs)
@@ -259,6 +276,7 @@ def run_case(case, ctx):
 	for a, b in zip(idx, idx[1:]):
 		if any(e in ('mutation', 'fail') for e in events[a + 1:b]):
 			nontrivial = True
+	classes.add('gdb_mode=' + mode)
 	if 'mutation' in events:
 		classes.add('has_mutation_attempt')
 	if 'fail' in events:
@@ -292,7 +310,7 @@ STEP = st.one_of(
 def gen_case(draw, tier):
 	w = draw(Wd.world(max_refs=4, min_refs=2, max_queries=3, min_queries=2, nasty_names=False))
 	steps = draw(st.lists(STEP, min_size=5, max_size=25))
-	return {'kind': 'history', 'world': w, 'steps': steps}
+	return {'kind': 'history', 'world': w, 'steps': steps, 'gdb_mode': draw(st.sampled_from(['default', 'wal', 'default', 'persist', 'vacuum_pagesize', 'wal', 'user_version']))}
 
 
 def strategy(tier):
